@@ -1553,7 +1553,20 @@ class Store:
                 self.apply_update(update_value, state)
             return _EMPTY_UPDATES
 
-        if self.inner or self.subschema:
+        # A branch without children (all deleted, moved away or divided,
+        # or none yet: initial state {}) whose glob declarations name no
+        # sub-variable ({'*': {}}) has neither an inner nor a subschema,
+        # but it is still a branch: updates for children that are gone
+        # are skipped like they are when a sibling remains, and
+        # structural updates can fill it.
+        empty_branch = (
+            not self.leaf and (
+                self.value is None
+                or (isinstance(self.value, dict) and not self.value))
+            and isinstance(update, dict)
+            and not self.schema_keys & set(update.keys()))
+
+        if self.inner or self.subschema or empty_branch:
             # Branch update: this node has an inner
             process_updates = []
             step_updates = []
